@@ -4,13 +4,24 @@ use super::types::{BlockChunk, BlockSizeSpec, ESpec, ESpecError, ZLibVariant};
 pub struct Parser<'a> {
     input: &'a str,
     pos: usize,
+    /// Number of specs currently being parsed inside each other
+    depth: usize,
 }
+
+/// Deepest nesting of specs (`b:` / `e:` inside each other) the parser follows. Real specs
+/// nest two or three levels; the limit keeps the recursion - and the recursive drop of the
+/// parsed value - away from the end of the stack.
+const MAX_NESTING_DEPTH: usize = 32;
 
 impl<'a> Parser<'a> {
     /// Create a new parser for the given input
     #[must_use]
     pub const fn new(input: &'a str) -> Self {
-        Self { input, pos: 0 }
+        Self {
+            input,
+            pos: 0,
+            depth: 0,
+        }
     }
 
     /// Parse the input string into an `ESpec`
@@ -93,6 +104,20 @@ impl<'a> Parser<'a> {
 
     /// Parse an `ESpec` from the current position
     fn parse_espec(&mut self) -> Result<ESpec, ESpecError> {
+        if self.depth >= MAX_NESTING_DEPTH {
+            return Err(ESpecError::NestingTooDeep {
+                position: self.pos,
+                limit: MAX_NESTING_DEPTH,
+            });
+        }
+        self.depth += 1;
+        let spec = self.parse_espec_at_depth();
+        self.depth -= 1;
+        spec
+    }
+
+    /// Parse one `ESpec`; nested specs come back through [`Self::parse_espec`]
+    fn parse_espec_at_depth(&mut self) -> Result<ESpec, ESpecError> {
         match self.peek() {
             Some('n') => {
                 self.consume('n')?;
